@@ -18,9 +18,29 @@
 
    Sources that implement registry.ReferrerLister (remote repositories) take
    another branch in the first filter and are not covered by this model. *)
-From Oras Require Import Base.Prelude.
+From Oras Require Import Base.Prelude Generated.GC03.
 
 Inductive mkind := KImage | KDocker | KIndex | KDockerList | KArtifact | KOther.
+
+Definition kind_eqb (a c : mkind) : bool :=
+  match a, c with
+  | KImage, KImage | KDocker, KDocker | KIndex, KIndex | KDockerList, KDockerList
+  | KArtifact, KArtifact | KOther, KOther => true
+  | _, _ => false
+  end.
+
+(* the media type constants as they are spelled in the case lists that
+   tools/gosrc2v re-reads from extendedcopy.go (Generated/GC03.v) *)
+Definition kind_of_selector (sel : str) : mkind :=
+  if str_eqb sel (b "ocispec.MediaTypeImageManifest") then KImage
+  else if str_eqb sel (b "docker.MediaTypeManifest") then KDocker
+  else if str_eqb sel (b "ocispec.MediaTypeImageIndex") then KIndex
+  else if str_eqb sel (b "docker.MediaTypeManifestList") then KDockerList
+  else if str_eqb sel (b "spec.MediaTypeArtifactManifest") then KArtifact
+  else KOther.
+
+Definition in_cases (cases : list str) (k : mkind) : bool :=
+  existsb (fun sel => kind_eqb k (kind_of_selector sel)) cases.
 
 Definition annots := list (str * str).
 
@@ -51,6 +71,7 @@ Definition is_empty (s : str) : bool := match s with [] => true | _ => false end
    image manifests falling back to the config media type (same rule as
    registry.Referrers and the distribution spec); indexes carry artifactType too. *)
 Definition fetch_artifact_type (s : source) (id : nat) : str :=
+  if negb (in_cases fetchArtifactType_cases (s_kind s id)) then [] else   (* default: "" *)
   match s_kind s id with
   | KArtifact => s_mat s id
   | KImage => if is_empty (s_mat s id) then s_mcfg s id else s_mat s id
@@ -59,8 +80,7 @@ Definition fetch_artifact_type (s : source) (id : nat) : str :=
   end.
 
 (* which media types make FilterArtifactType fetch the manifest *)
-Definition at_fetch_kind (k : mkind) : bool :=
-  match k with KArtifact | KImage | KIndex => true | _ => false end.
+Definition at_fetch_kind (k : mkind) : bool := in_cases filterArtifactType_cases k.
 
 (* the pinned (pre-fix) source: image manifests always answer with the config
    media type and indexes are never fetched *)
@@ -78,8 +98,7 @@ Definition at_fetch_kind_prefix (k : mkind) : bool :=
 Definition fetch_annotations (s : source) (id : nat) : annots :=
   match s_mann s id with Some m => m | None => [] end.
 
-Definition ann_fetch_kind (k : mkind) : bool :=
-  match k with KImage | KDocker | KIndex | KDockerList | KArtifact => true | KOther => false end.
+Definition ann_fetch_kind (k : mkind) : bool := in_cases filterAnnotation_cases k.
 
 (* one call of opts.FilterArtifactType(regex) / opts.FilterAnnotation(key, regex);
    a regular expression is its MatchString function, None = nil regex *)
